@@ -4982,6 +4982,9 @@ def PrefixedArray(countfield, subcon):
         position1 = stream_tell(stream, path)
         count = countfield._parse(stream, context, path)
         position2 = stream_tell(stream, path)
+        # the elements live in the context of the FocusedSeq above (one level below the caller's, holding the count)
+        context = Container(_ = context, _params = context._params, _root = None, _parsing = context._parsing, _building = context._building, _sizing = context._sizing, _subcons = None, _io = stream, _index = context.get("_index", None), count = count)
+        context._root = context._.get("_root", context)
         return (position2-position1) + count * subcon._sizeof(context, path)
     macro._actualsize = _actualsize
 
